@@ -37,6 +37,8 @@ INF = 10 ** 9
 K_TRASH = "trashed-connection-never-closed-by-hostconnection-shutdown"
 K_INSTALL = "replacement-connection-installed-into-shut-down-pool"
 K_POOL_LATE = "pool-finished-after-session-shutdown-is-installed-open"
+K_CC_LATE = "control-connection-installed-by-reconnect-after-shutdown"
+K_CONNECT_RACE = "session-created-while-cluster-shuts-down-is-never-shut-down"
 
 
 class InjectChooser(object):
@@ -90,7 +92,7 @@ def run_history(seed, variant, k):
     env = SimEnv(ch, addresses=addrs, max_virtual_time=600.0)
     w = env.world
     if flavour == 'trash':
-        env.conn_class.max_in_flight = 4
+        env.conn_class.max_in_flight = 6
         env.conn_class.orphaned_threshold = 3
     plan = {}                      # uid -> action
     hold_handshake = {}            # address -> [count, delay, op]   keep the answer to OPTIONS/STARTUP back for `delay` seconds
@@ -142,6 +144,37 @@ def run_history(seed, variant, k):
             pass
 
     uids = iter(range(1, 10000))
+    running = {}                   # thread ident -> record of the executor task it is running
+    task_seq = iter(range(1, 10 ** 9))
+
+    def watch_executor(cluster):
+        ex = cluster.executor
+        orig = ex.submit
+
+        def submit(fn, *a, **kw):
+            rec = {'seq': next(task_seq), 't': w.now, 'fn': getattr(fn, '__qualname__', None) or getattr(getattr(fn, 'func', None), '__qualname__', repr(fn)[:60]),
+                   'after_call': S.get('called', False), 'after_return': S.get('returned', False)}
+
+            def run(*a2, **kw2):
+                import threading
+                tid = threading.get_ident()
+                prev = running.get(tid)
+                running[tid] = rec
+                try:
+                    return fn(*a2, **kw2)
+                finally:
+                    running[tid] = prev
+            return orig(run, *a, **kw)
+        ex.submit = submit
+
+    orig_register = env.net.register_conn
+
+    def register_conn(conn, creator):
+        import threading
+        r = orig_register(conn, creator)
+        conn.sim_task = running.get(threading.get_ident())
+        return r
+    env.net.register_conn = register_conn
 
     def sleep(dt):
         w.block(None, w.now + dt, 'user-sleep')
@@ -165,6 +198,16 @@ def run_history(seed, variant, k):
             if proto < 3:
                 cluster.set_core_connections_per_host(HostDistance.LOCAL, 1)
                 cluster.set_max_connections_per_host(HostDistance.LOCAL, 2)
+            watch_executor(cluster)
+            cc_ = cluster.control_connection
+            orig_cc_shutdown = cc_.shutdown
+
+            def cc_shutdown():
+                r = orig_cc_shutdown()
+                # which connections had finished their handshake when the control connection was marked shut down
+                S['connected_when_cc_shut'] = set(c.sim_id for c in env.net.conns if c.connected_event.is_set())
+                return r
+            cc_.shutdown = cc_shutdown
             S['cluster'] = cluster
             if S['stop']:
                 return
@@ -218,23 +261,25 @@ def run_history(seed, variant, k):
                 request(session, host=h2)
                 sleep(0.3)
             elif flavour == 'control':
-                # the control connection is reset; the reconnection's handshake answer is late
+                # node 1 (control connection host) goes away: control connection and pool connection reset, the host is marked down,
+                # the control connection reconnects to node 2 and the handshake answer of that new connection is late
                 cc = cluster.control_connection._connection
-                hold_handshake['127.0.0.1'] = [1, 0.4, 'STARTUP']
-                convict['127.0.0.1'] = False
+                hold_handshake['127.0.0.2'] = [1, 0.4, 'STARTUP']
+                n1.up = False
                 if cc is not None:
                     env.net.server_close(cc, reset=True)
-                sleep(0.1)
+                request(session, host=hosts.get('127.0.0.1'), act='reset')
                 if S['stop']:
                     return
-                # a pushed event makes nobody notice; a refresh through the dead connection does
-                try:
-                    cluster.control_connection.refresh_node_list_and_token_map()
-                except Exception as e:
-                    S['log'].append(('refresh-raised', type(e).__name__))
+                sleep(0.2)
                 if S['stop']:
                     return
-                sleep(1.5)
+                request(session)
+                sleep(0.6)
+                if S['stop']:
+                    return
+                n1.up = True
+                sleep(0.8)
             elif flavour == 'trash':
                 # three requests never answered time out on the client: orphan threshold reached, the next borrow replaces the connection
                 # while a fourth request is still in flight on the old one -> the old connection goes to the pool's trash
@@ -288,13 +333,32 @@ def run_history(seed, variant, k):
             pre_conns = len(env.net.conns)
             pre_connected = dict((c.sim_id, bool(c.connected_event.is_set())) for c in env.net.conns)
             pre_trash = set()
+            trash_at_pool_shutdown = set()
+            pre_pool_conns = set()
             pools_pre = []
+            try:
+                sessions_at_call = list(cluster.sessions)
+            except Exception:
+                sessions_at_call = []
             for s_ in [x for x in (S['session'], S['session2']) if x is not None]:
                 for p_ in list(s_._pools.values()):
                     pools_pre.append(p_)
                     for c in list(getattr(p_, '_trash', ())):
                         pre_trash.add(c.sim_id)
+                    for c in list(p_.get_connections()):
+                        pre_pool_conns.add(c.sim_id)
+
+                    if isinstance(getattr(p_, '_trash', None), set):
+                        # observe what goes through the pool's trash from now on (shutdown swaps the set for a fresh one)
+                        class LoggedSet(set):
+                            def add(self_, x):
+                                trash_at_pool_shutdown.add(x.sim_id)
+                                set.add(self_, x)
+                        for c in list(p_._trash):
+                            trash_at_pool_shutdown.add(c.sim_id)
+                        p_._trash = LoggedSet(p_._trash)
         t_call = w.now
+        S['called'] = True
         try:
             if target == 'session':
                 session.shutdown()
@@ -303,6 +367,7 @@ def run_history(seed, variant, k):
         except W.WorldHang as e:
             R['viol'].append(('shutdown-never-returns', "%s.shutdown() injected at step %d never returns: %s" % (target, k, e), {}))
             return R, env
+        S['returned'] = True
         with w.inspect():
             ret_conns = len(env.net.conns)
             t_ret = w.now
@@ -339,9 +404,29 @@ def run_history(seed, variant, k):
                 for p_ in all_pools:
                     if conn in list(p_.get_connections()):
                         return ('pool', p_)
+                    if conn in list(getattr(p_, '_trash', ())):
+                        return ('trash', p_)
                 if getattr(cc, '_connection', None) is conn:
                     return ('control', None)
                 return (None, None)
+
+            def owner(pool):
+                for s_ in (S['session'], S['session2']):
+                    if s_ is not None and pool is not None and pool in list(s_._pools.values()):
+                        return s_
+                return None
+
+            def owner_shutdown(pool):
+                o = owner(pool)
+                return None if o is None else bool(o.is_shutdown)
+
+            def owner_registered(pool):
+                o = owner(pool)
+                return None if o is None else any(o is x for x in sessions_at_call)
+
+            def task_info(conn):
+                t_ = getattr(conn, 'sim_task', None)
+                return None if t_ is None else {'fn': t_['fn'], 'submitted_after_call': t_['after_call'], 'submitted_after_return': t_['after_return']}
 
             def judged(conn):
                 """Does the shutdown that was called have to release this connection?"""
@@ -366,17 +451,25 @@ def run_history(seed, variant, k):
                 wh, pool = where(conn)
                 info = {'conn': conn.sim_id, 'creator': conn.sim_creator, 'created_at': conn.sim_created_at, 'existed_at_call': conn.sim_id < pre_conns,
                         'existed_at_return': conn.sim_id < ret_conns, 'connected_at_call': pre_connected.get(conn.sim_id, False),
-                        'was_in_trash_at_call': conn.sim_id in pre_trash, 'where': wh,
+                        'was_in_trash_at_call': conn.sim_id in pre_trash, 'went_through_pool_trash': conn.sim_id in trash_at_pool_shutdown, 'where': wh,
                         'pool': type(pool).__name__ if pool is not None else None, 'pool_shutdown': bool(pool.is_shutdown) if pool is not None else None,
-                        'orphan_threshold_reached': bool(getattr(conn, 'orphaned_threshold_reached', False)), 'target': target}
+                        'orphan_threshold_reached': bool(getattr(conn, 'orphaned_threshold_reached', False)), 'target': target, 'proto': proto,
+                        'connected_when_control_connection_shut_down': conn.sim_id in S.get('connected_when_cc_shut', ()),
+                        'task': task_info(conn), 'pool_installed_at_call': pool is not None and any(pool is x for x in pools_pre), 'conn_in_a_pool_at_call': conn.sim_id in pre_pool_conns,
+                        'owner_session_shutdown': owner_shutdown(pool), 'owner_session_registered_at_call': owner_registered(pool)}
                 R['viol'].append(('open', "connection %d to %s (creator %s, opened at t=%.3f) is still open %.0f s after %s.shutdown() returned (injected at step %d, t=%.3f)" % (
                     conn.sim_id, conn.endpoint, conn.sim_creator, conn.sim_created_at, w.now - t_ret, target, k, t_call), info))
             for conn in env.net.conns[ret_conns:]:
                 if not judged(conn) and not (target == 'session' and conn.sim_creator.startswith('pool') and S['session2'] is None):
                     continue
+                wh, pool = where(conn)
                 R['viol'].append(('late', "connection %d to %s (creator %s) was opened at t=%.3f, after %s.shutdown() had returned at t=%.3f" % (
                     conn.sim_id, conn.endpoint, conn.sim_creator, conn.sim_created_at, target, t_ret),
-                    {'creator': conn.sim_creator, 'target': target, 'closed_in_the_end': bool(conn.is_closed)}))
+                    {'conn': conn.sim_id, 'creator': conn.sim_creator, 'target': target, 'closed_in_the_end': bool(conn.is_closed), 'task': task_info(conn),
+                     'where': wh, 'pool_shutdown': bool(pool.is_shutdown) if pool is not None else None, 'owner_session_shutdown': owner_shutdown(pool),
+                     'pool_installed_at_call': pool is not None and any(pool is x for x in pools_pre)}))
+            if probe is not None and probe._event.is_set() and probe._final_exception is None:
+                R['viol'].append(('accepted', "a request issued after %s.shutdown() returned was executed successfully" % target, {'target': target}))
             if probe is not None and not probe._event.is_set():
                 R['viol'].append(('pending', "a request issued after %s.shutdown() returned is still pending 60 s later (timeout=None)" % target, {'target': target}))
             R['info'].update({'open': n_open, 'conns': len(env.net.conns), 'during': ret_conns - pre_conns, 'after': len(env.net.conns) - ret_conns,
@@ -392,20 +485,45 @@ def run_history(seed, variant, k):
     return R, env
 
 
-def classify(v):
+def classify(v, R=None):
     kind, what, info = v
     if kind == 'open':
-        if info['where'] is None and info['was_in_trash_at_call'] and info['orphan_threshold_reached'] and info['creator'].startswith('pool'):
+        cr = info['creator']
+        if info['where'] is None and info['went_through_pool_trash'] and info['orphan_threshold_reached'] and cr.startswith('pool') and info['proto'] >= 3:
+            # it was in the pool's trash when HostConnection.shutdown swapped the trash set: emptied without closing it
             return K_TRASH
-        if info['where'] == 'pool' and info['pool_shutdown'] and info['creator'] in ('pool-replace', 'pool-grow') and not info['connected_at_call']:
+        if info['where'] == 'pool' and info['pool_shutdown'] and cr in ('pool-replace', 'pool-grow') and not info['conn_in_a_pool_at_call']:
             return K_INSTALL
-        if info['where'] == 'pool' and info['pool_shutdown'] is False and info['creator'] == 'pool-init' and not info['connected_at_call']:
+        if info['where'] == 'trash' and info['pool_shutdown'] and info['pool'] == 'HostConnection' and not info['was_in_trash_at_call'] \
+                and info['conn_in_a_pool_at_call'] and info['orphan_threshold_reached']:
+            # the same _replace finishing after shutdown: it installs the new connection (closed by the shutdown that follows or not) and
+            # parks the old one in the trash of the already shut-down pool
+            return K_INSTALL
+        if info['where'] == 'pool' and info['pool_shutdown'] is False and cr == 'pool-init' and info['owner_session_shutdown'] is False \
+                and info['owner_session_registered_at_call'] is False and info['target'] == 'cluster':
+            return K_CONNECT_RACE
+        if info['where'] == 'pool' and info['pool_shutdown'] is False and cr == 'pool-init' and info['owner_session_shutdown'] and not info['pool_installed_at_call'] \
+                and not (info['task'] or {}).get('submitted_after_return'):
             return K_POOL_LATE
+        if info['where'] == 'control' and cr == 'control' and info['connected_when_control_connection_shut_down'] and info['target'] == 'cluster' \
+                and (info['task'] or {}).get('fn', '').endswith('ControlConnection._reconnect') and not (info['task'] or {}).get('submitted_after_return'):
+            # past the is_shutdown re-check of _try_connect (handshake done before the control connection was shut down), installed by _set_new_connection afterwards
+            return K_CC_LATE
         if info['where'] == 'control':
             return "control-connection-left-open-after-shutdown"
         return "connection-open-after-shutdown"
     if kind == 'late':
+        t = info.get('task') or {}
+        if t.get('submitted_after_return'):
+            return "task-accepted-after-shutdown-opened-a-connection"
+        if info['creator'] == 'pool-init' and info['target'] == 'session' and info['where'] == 'pool' and info['pool_shutdown'] is False \
+                and info['owner_session_shutdown'] and not info['pool_installed_at_call'] and t.get('fn', '').endswith('run_add_or_renew_pool'):
+            return K_POOL_LATE          # the task was queued before Session.shutdown() and ran afterwards: same missing re-check
         return "connection-opened-after-shutdown-returned"
+    if kind == 'accepted':
+        if R is not None and any(v2[0] == 'open' and classify(v2) in (K_POOL_LATE, K_CONNECT_RACE) for v2 in R['viol']):
+            return [classify(v2) for v2 in R['viol'] if v2[0] == 'open' and classify(v2) in (K_POOL_LATE, K_CONNECT_RACE)][0]
+        return "request-accepted-after-shutdown"
     if kind == 'pending':
         return "request-after-shutdown-left-pending"
     return kind
@@ -484,7 +602,7 @@ def run(ctx):
                     ctx.count("user_thread_still_inside_a_driver_call_at_quiescence")
                 seen = set()
                 for v in R['viol']:
-                    mech = classify(v)
+                    mech = classify(v, R)
                     if mech in seen:
                         continue
                     seen.add(mech)
